@@ -174,6 +174,62 @@ def _task_condition(task):
     return t
 
 
+# ----------------------------------------------------------------------------- reuse: evaluation is a pure function of (criterion, packet)
+def _task_reuse(task):
+    """One criterion object evaluated on a HISTORY of packets whose operand kinds differ (int, float, bool, str ...):
+    every result must be what a fresh object gives.  All ordered pairs and triples of operands."""
+    from space_packet_parser import common
+    from space_packet_parser.packets import CCSDSPacket
+    from space_packet_parser.xtce import comparisons
+    t = Tally()
+    operands = [0, 1, 7, -1, 0.0, 2.0, 2.5, -0.0, True, False]
+    with case_alarm(900):
+        for op in task["ops"]:
+            for lit in ("0", "1", "2", "7"):
+                for use_cal in (True, False):
+                    for hist in itertools.product(operands, repeat=task["depth"]):
+                        try:
+                            c = comparisons.Comparison(lit, "P", operator=op, use_calibrated_value=use_cal)
+                            d = comparisons.Condition("P", op, right_value=lit, left_use_calibrated_value=use_cal, right_use_calibrated_value=False)
+                            e = comparisons.Condition("P", op, right_param="Q", left_use_calibrated_value=use_cal, right_use_calibrated_value=use_cal)
+                            be = comparisons.BooleanExpression(comparisons.Anded([d], [comparisons.Ored([e, d], [])]))
+                            dl = comparisons.DiscreteLookup([c], 8.0)
+                        except Exception as ex:  # noqa: BLE001
+                            t.violation({"kind": "reuse-construction-failed"}, {"op": op}, observed=repr(ex))
+                            continue
+                        for step, v in enumerate(hist):
+                            if isinstance(v, bool) and not use_cal:
+                                continue  # a raw value is never a plain bool
+                            other = 9 if not isinstance(v, float) else 9.5
+                            P = _mk_value(common, v, other) if use_cal else _mk_value(common, other, v)
+                            q = 1 if step % 2 == 0 else 1.0
+                            Q = _mk_value(common, q, 5) if use_cal else _mk_value(common, 5, q)
+                            pkt = CCSDSPacket(P=P, Q=Q)
+                            want_c = _expect_cmp(op, v, lit)
+                            want_e = interp.relate(op, v, q)
+                            want_be = (want_c is True) and (want_e or want_c is True)
+                            for name, obj, want in (("Comparison", c, want_c), ("Condition-value", d, want_c), ("Condition-param", e, want_e),
+                                                    ("BooleanExpression", be, want_be), ("DiscreteLookup", dl, 8.0 if want_c is True else None)):
+                                if want_c == "raise":
+                                    continue
+                                t.evals += 1
+                                try:
+                                    with observed_warnings():
+                                        got = obj.evaluate(pkt)
+                                except Exception as ex:  # noqa: BLE001
+                                    got = f"raised:{type(ex).__name__}"
+                                ok = (got is want) if isinstance(want, bool) else (got == want and type(got) is type(want))
+                                if not ok:
+                                    t.violation({"kind": "criterion-has-memory", "form": name, "step": step, "got": str(got)[:30]},
+                                                {"form": "reuse:" + name, "op": op, "literal": lit, "use_cal": use_cal, "history": list(hist), "step": step},
+                                                expected=want, observed=repr(got),
+                                                note="the same criterion object gives a different answer after having evaluated other packets")
+                        t.nontrivial += 1
+                        t.states += 1
+    t.sample({"form": "reuse", "op": task["ops"][0], "history": [2.5, 7, 0], "objects": ["Comparison", "Condition", "BooleanExpression", "DiscreteLookup"]})
+    return t
+
+
 # ----------------------------------------------------------------------------- boolean trees
 def gen_trees(kind, leaves, depth):
     """All trees (kind, n_direct_leaves, children) with exactly `leaves` leaves and nesting depth <= depth.
@@ -474,6 +530,7 @@ def run(ctx):
             trees += gen_trees(kind, n, maxd)
     tally.merge(fan_out(_task_trees, [{"trees": ch} for ch in chunked(trees, 32)], jobs=ctx.jobs, seed=ctx.seed))
     tally.merge(_task_lookup({}))
+    tally.merge(fan_out(_task_reuse, [{"ops": [op], "depth": 2 if ctx.quick else 3} for op in CANON_OPS + ["leq", "&gt;"]], jobs=ctx.jobs, seed=ctx.seed))
     crits = consumer_criteria(ctx.tier)
     ctasks = []
     base = 0
@@ -490,6 +547,7 @@ def run(ctx):
                   f"+ own-raw-value form; Condition: 16 spellings x (parameter-vs-parameter over 10 numeric values incl. int-vs-float in both orders "
                   f"and bools, 3 strings; 4 selector combinations) + parameter-vs-literal; BooleanExpression: all {len(trees)} AND/OR trees with <= {maxl} "
                   f"leaves and depth <= {maxd} x 2 leaf forms x all 2^leaves assignments; DiscreteLookup: 5 criteria lists x 4 values x 9 assignments; "
+                  f"reuse: one Comparison/Condition/BooleanExpression/DiscreteLookup object evaluated over every history of {2 if ctx.quick else 3} operands of mixed kinds (10 operands); "
                   f"consumer level: {len(crits)} restriction criteria (every form) x {len(consumer_packets())} packets, loaded from XML and built from objects"),
         "rule": ("one evaluation = one evaluate() call or one packet routed through a criterion; distinct non-trivial = distinct truth-table cells "
                  "(object level), distinct trees, and consumer criteria that were observed both true and false"),
@@ -509,6 +567,13 @@ def replay(case):
     elif form == "BooleanExpression":
         tree = _tuplify(case["tree"])
         t = _task_trees({"trees": [tree]})
+    elif form and form.startswith("reuse:"):
+        t = _task_reuse({"ops": [case["op"]], "depth": len(case["history"])})
+        for v in t.violations:
+            if v["case"].get("history") == case["history"] and v["case"].get("form") == form and v["case"].get("literal") == case["literal"] \
+                    and v["case"].get("use_cal") == case["use_cal"] and v["case"].get("step") == case["step"]:
+                return v
+        return None
     elif form == "DiscreteLookup":
         t = _task_lookup({})
     elif form == "restriction-criteria":
